@@ -400,8 +400,8 @@ static void writemon_part(void)
 		snprintf(ctx, sizeof ctx, "WRITEMON armed, cpu=%s", cpu_level_name[lvl]);
 		cpu_set_level(lvl);
 		cpu_resolve_all();       /* implementation selection = the only permitted write */
-		battery_run("warm-up", 1); /* anything lazily built must be built here, before arming */
-		extra_workload("warm-up");
+		/* no warm-up: the monitor is armed before the first data-plane call of this process, so state that is built lazily on first
+		 * use (and would make results depend on what ran before) is a write fault too */
 		wm_arm();
 		int n = battery_run(ctx, 2);
 		extra_workload(ctx);
@@ -412,7 +412,7 @@ static void writemon_part(void)
 		if (v_shard == 0 && lvl == 0) {
 			uintptr_t lo, hi;
 			wm_range(&lo, &hi);
-			v_sample("WRITEMON: library-owned writable memory = isal_data/isal_bss %lu bytes, read-only after warm-up at cpu=%s; %d battery cases + extra workload without a write fault", (unsigned long)(hi - lo),
+			v_sample("WRITEMON: library-owned writable memory = isal_data/isal_bss %lu bytes, read-only right after implementation selection at cpu=%s; %d battery cases + extra workload without a write fault", (unsigned long)(hi - lo),
 				 cpu_level_name[lvl], n);
 		}
 	}
